@@ -46,6 +46,22 @@ def plan(tier, seed):
             case["fam"] = "df-slices"
             items.append(case)
     fam["df-slices"] = len(items) - n0
+    # locals renamed to look like the parameter / like translator-generated names, in every position of every
+    # control skeleton of size <= 3 / 4 (alphabet includes the alias 'v = u' and the self-update 'u = u + x')
+    n0 = len(items)
+    quick = tier == "quick"
+    drv_r = sggen.df_driver(sggen.DFConfig(
+        size=3 if quick else 4, depth=1, alphabet="alias" if quick else "reduced", kinds=["if", "for"], ivar_after=False,
+        renames=[r for r in sggen.RENAMES if not quick or r[0] in sggen.RENAMES_QUICK],
+        prologues=["vc", "none"] if quick else ["uc,vc", "vc", "none"],
+        returns=["u,v", "v"] if quick else ["u,v", "v", "x,u"]))
+    for picks, case in explore.explore(drv_r, bound=0, stats=st):
+        key = _json.dumps(case["prog"], sort_keys=True)
+        if key not in seen_s:
+            seen_s.add(key)
+            case["fam"] = "df-rename"
+            items.append(case)
+    fam["df-rename"] = len(items) - n0
     for it in items:
         it["kind"] = "accept"
     # bases for the mutation table: the small exhaustive dataflow family with default peripherals, plus the
